@@ -145,7 +145,7 @@ def _gauss_cases(ctx, count):
     rng = ctx.rng
     cases = []
     for _ in range(count):
-        n = rng.choice([1, 2, 2, 3, 3, 4, 5])
+        n = rng.choice([1, 2, 2, 3, 3, 4, 5]) if rng.random() < 0.93 else rng.choice([9, 11])
         mu = [round(rng.uniform(-2, 2), 3) for _ in range(2 * n)]
         a = np.array([[round(rng.uniform(-1, 1), 3) for _ in range(2 * n)] for _ in range(2 * n)])
         cov = (a @ a.T + np.eye(2 * n) * 0.5)
@@ -709,6 +709,21 @@ def corr_pp(ctx):
 #           against the state object of exactly those modes.
 
 FOCK_CUTOFF = {1: 14, 2: 10, 3: 7}
+HBARS = [2.0, 1.0, 0.5, 1.7, 3.0]
+
+
+class _Hbar:
+    def __init__(self, h):
+        self.h = h
+
+    def __enter__(self):
+        self.old = sf.hbar
+        sf.hbar = self.h
+
+    def __exit__(self, *a):
+        sf.hbar = self.old
+
+
 
 
 def gen_gauss_spec(rng, n, lossy):
@@ -750,6 +765,9 @@ def gen_queries(rng, n, cutoff, with_fock):
     for k in range(n):
         qs.append({"m": "mean_photon", "mode": k})
         qs.append({"m": "quad_expectation", "mode": k, "phi": rng.choice([0.0, math.pi / 2, 0.7, -1.3, 2.4])})
+        qs.append({"m": "squeezing_flags", "mode": k})
+        qs.append({"m": "squeezing_truth", "mode": k})
+    qs.append({"m": "squeezing", "modes": rng.sample(range(n), rng.randint(1, n))})
     for sub in rng.sample(subsets, min(len(subsets), 4)):
         qs.append({"m": "parity_expectation", "modes": sub})
         qs.append({"m": "reduced_dm", "modes": sub})
@@ -767,9 +785,12 @@ def gen_queries(rng, n, cutoff, with_fock):
         qs.append({"m": "backend_state", "modes": sub})
         qs.append({"m": "backend_state", "modes": sorted(sub)[:-1] if len(sub) > 1 else sub})
         qs.append({"m": "backend_state", "modes": [rng.randrange(1, n)]})
+        qs.append({"m": "backend_state", "modes": [rng.randrange(n)], "as_int": True})
+        qs.append({"m": "reduced_dm", "modes": [rng.randrange(n)], "as_int": True})
         if n >= 3:
             qs.append({"m": "backend_state", "modes": sorted(rng.sample(range(1, n), 2))})
     qs.append({"m": "fidelity_vacuum"})
+    qs.append({"m": "state_eq", "perturb": rng.choice([["Dgate", [0.05, 0.4]], ["Sgate", [0.05, 0.3]], ["Rgate", [0.2]], None]), "mode": rng.randrange(n)})
     qs.append({"m": "fidelity_coherent", "alpha": [[round(rng.uniform(-0.4, 0.4), 2), round(rng.uniform(-0.4, 0.4), 2)] for _ in range(n)]})
     for _ in range(3):
         nn = [rng.choice([0, 0, 1, 1, 2, 3]) for _ in range(n)]
@@ -828,6 +849,23 @@ def ref_from_gauss(mu, cov, n, q, cutoff):
     if m == "mean_photon":
         rm, rc = red([q["mode"]])
         return [(np.trace(rc) + rm @ rm) / (2 * hb) - 0.5, (np.trace(rc @ rc) + 2 * rm @ rc @ rm) / (2 * hb ** 2) - 0.25]
+    if m == "squeezing":
+        # (r, sin phi) per mode from the documented formulas; the quadrant of phi is the subject of "squeezing_truth"
+        out = []
+        for k in q["modes"]:
+            rm, rc = red([k])
+            v = rc / (hb / 2)
+            tr = np.trace(v)
+            den = np.sqrt(max((tr - 2) * (tr + 2), 1e-300))
+            out.append([np.arccosh(max(tr / 2, 1.0)) / 2, 0.0 if v[0, 1] == 0 else float(np.clip(-2 * v[0, 1] / den, -1, 1))])
+        return np.array(out)
+    if m == "squeezing_truth":
+        rm, rc = red([q["mode"]])
+        return rc
+    if m == "squeezing_flags":
+        rm, rc = red([q["mode"]])
+        v = rc / (hb / 2)
+        return np.array([float(np.allclose(v, np.eye(2), atol=1e-10, rtol=0)), float(np.any(np.abs(v - np.eye(2)) > 1e-6))])
     if m == "quad_expectation":
         rm, rc = red([q["mode"]])
         c, s = np.cos(q["phi"]), np.sin(q["phi"])
@@ -889,7 +927,22 @@ def ref_from_gauss(mu, cov, n, q, cutoff):
             c, s = np.cos(phi), np.sin(phi)
             R = np.block([[c * np.eye(n), s * np.eye(n)], [-s * np.eye(n), c * np.eye(n)]])   # r -> rot.T r
             mu2, cov2 = R @ mu, R @ cov @ R.T
-        return [float(np.trace(A @ cov2) + mu2 @ A @ mu2 + mu2 @ d + k)]
+        mean = float(np.trace(A @ cov2) + mu2 @ A @ mu2 + mu2 @ d + k)
+        # variance: exact operator algebra on the Fock representation of the touched modes (independent of the
+        # Gaussian class's closed formula and its ordering correction)
+        touched = sorted(set(int(i) % n for i in np.nonzero(A)[0]) | set(int(i) % n for i in np.nonzero(d)[0]))
+        if not touched or len(touched) > 2:
+            return [mean]
+        kk = len(touched)
+        cut = {1: 16, 2: 11}[kk]
+        rm, rc = red(touched)
+        rho = twq.density_matrix(rm, rc, hbar=hb, normalize=False, cutoff=cut)
+        rows = touched + [t + n for t in touched]
+        q2 = {"m": "poly_quad_expectation", "A": A[np.ix_(rows, rows)].tolist(), "d": d[rows].tolist(), "k": k, "phi": phi}
+        mv = ref_from_dm(rho, kk, cut, q2)
+        tail = max(0.0, 1.0 - float(np.real(np.einsum(rho, [i // 2 for i in range(2 * kk)]))))
+        REF_EXTRA_TOL["poly_quad_expectation"] = 1e-5 + 50 * tail * cut ** 4
+        return [mean, float(mv[1])]
     return None
 
 
@@ -904,6 +957,15 @@ def call_query(st, rep, q, cutoff, eng=None):
         return [complex(x).real for x in st.quad_expectation(q["mode"], q["phi"])]
     if m == "displacement":
         return np.asarray(st.displacement(list(q["modes"])))
+    if m == "squeezing":
+        return np.array([[x[0], np.sin(x[1])] for x in st.squeezing(list(q["modes"]))], dtype=float)
+    if m == "squeezing_truth":
+        # covariance of the single-mode squeezed state S(r e^{i phi}) with the returned parameters
+        r, ph = [float(x) for x in st.squeezing([q["mode"]])[0]]
+        c2, s2 = np.cosh(2 * r), np.sinh(2 * r)
+        return (hb / 2) * np.array([[c2 - np.cos(ph) * s2, -np.sin(ph) * s2], [-np.sin(ph) * s2, c2 + np.cos(ph) * s2]])
+    if m == "squeezing_flags":
+        return np.array([float(st.is_coherent(q["mode"])), float(st.is_squeezed(q["mode"]))])
     if m == "parity_expectation":
         v = complex(st.parity_expectation(list(q["modes"])))
         return v
@@ -926,7 +988,7 @@ def call_query(st, rep, q, cutoff, eng=None):
     if m == "dm":
         return np.asarray(st.dm(**kw))
     if m == "reduced_dm":
-        return np.asarray(st.reduced_dm(list(q["modes"]), **kw))
+        return np.asarray(st.reduced_dm(q["modes"][0] if q.get("as_int") else list(q["modes"]), **kw))
     if m == "purity":
         if rep == "bosonic":
             return complex(st.purity())
@@ -938,17 +1000,18 @@ def call_query(st, rep, q, cutoff, eng=None):
     if m in ("x_quad_values", "p_quad_values"):
         return np.asarray(getattr(st, m)(q["mode"], QUAD_GRID, QUAD_GRID))
     if m == "poly_quad_expectation":
-        return [float(st.poly_quad_expectation(np.array(q["A"]), np.array(q["d"]), q["k"], q["phi"])[0])]
+        mv = st.poly_quad_expectation(np.array(q["A"]), np.array(q["d"]), q["k"], q["phi"])
+        return [float(mv[0]), float(mv[1])] if rep == "gaussian" else [float(mv[0])]
     raise KeyError(m)
 
 
 APPLIES = {
-    "gaussian": {"mean_photon", "quad_expectation", "displacement", "parity_expectation", "number_expectation", "fidelity_vacuum",
+    "gaussian": {"state_eq", "squeezing", "squeezing_flags", "squeezing_truth", "mean_photon", "quad_expectation", "displacement", "parity_expectation", "number_expectation", "fidelity_vacuum",
                  "fidelity_coherent", "fidelity", "fock_prob", "all_fock_probs", "dm", "reduced_dm", "purity", "wigner",
                  "x_quad_values", "p_quad_values", "poly_quad_expectation", "reduced_state", "backend_state"},
-    "bosonic": {"mean_photon", "quad_expectation", "displacement", "parity_expectation", "fidelity_vacuum", "fidelity_coherent",
+    "bosonic": {"state_eq", "mean_photon", "quad_expectation", "displacement", "parity_expectation", "fidelity_vacuum", "fidelity_coherent",
                 "fock_prob", "dm", "reduced_dm", "purity", "wigner", "x_quad_values", "p_quad_values", "reduced_state", "backend_state"},
-    "fock": {"mean_photon", "quad_expectation", "parity_expectation", "number_expectation", "fidelity_vacuum", "fidelity_coherent",
+    "fock": {"state_eq", "mean_photon", "quad_expectation", "parity_expectation", "number_expectation", "fidelity_vacuum", "fidelity_coherent",
              "fidelity", "fock_prob", "all_fock_probs", "dm", "reduced_dm", "wigner", "x_quad_values", "p_quad_values",
              "poly_quad_expectation", "backend_state"},
 }
@@ -973,7 +1036,12 @@ def _xxpp_of_bosonic(st):
     return np.real(st.means()[0][perm]), np.real(st.covs()[0][np.ix_(perm, perm)])
 
 
-def eval_gauss_query(spec, rep, q, cutoff, cache=None):
+def eval_gauss_query(spec, rep, q, cutoff, cache=None, hbar=2.0):
+    with _Hbar(hbar):
+        return _eval_gauss_query(spec, rep, q, cutoff, cache)
+
+
+def _eval_gauss_query(spec, rep, q, cutoff, cache=None):
     """Run spec on the gaussian backend (reference data) and on `rep`, evaluate query q.
     Returns (signature, text) if the property's predicate fails, else None."""
     cache = cache if cache is not None else {}
@@ -1011,7 +1079,33 @@ def eval_gauss_query(spec, rep, q, cutoff, cache=None):
                 return ("bosonic.reduced_bosonic:wrong-entries", "reduced_bosonic(%s) is not the sub-vector / sub-matrix of those modes" % ms)
         return None
     if m == "backend_state":
-        return _eval_backend_state(eng, st, rep, n, q["modes"], mu, cov, cutoff)
+        return _eval_backend_state(eng, st, rep, n, q["modes"], mu, cov, cutoff, q.get("as_int", False))
+    if m == "state_eq":
+        # state == other  must say whether the two objects describe the same state
+        import copy
+        spec2 = dict(spec)
+        if q["perturb"] is not None:
+            spec2 = {"n": n, "cmds": spec["cmds"] + [[q["perturb"][0], q["perturb"][1], [q["mode"]], False]]}
+        other = run_spec(spec2, rep, cutoff)[1]
+        mu2, cov2 = [np.array(x, dtype=float) for x in (run_spec(spec2, "gaussian")[1].means(), run_spec(spec2, "gaussian")[1].cov())]
+        differ = not (_close(mu, mu2, 1e-7) and _close(cov, cov2, 1e-7))
+        try:
+            got = bool(st == other), bool(other == st), bool(st == copy.deepcopy(st))
+        except Exception as e:  # noqa: BLE001
+            return ("%s.__eq__:raises:%s" % (rep, type(e).__name__), "%s state: == raised %r" % (rep, e))
+        if not got[2]:
+            return ("%s.__eq__:irreflexive" % rep, "%s state: a copy of the state is not == the state" % rep)
+        if got[0] != got[1]:
+            return ("%s.__eq__:asymmetric" % rep, "%s state: a == b is %s but b == a is %s" % (rep, got[0], got[1]))
+        if got[0] == differ:
+            return ("%s.__eq__:wrong" % rep, "%s state: == says %s for the states of a program and the same program followed by %s (first/second moments %s)" % (
+                rep, got[0], q["perturb"], "differ" if differ else "agree"))
+        return None
+    if m == "squeezing_truth":
+        kk = q["mode"]
+        rc1 = cov[np.ix_([kk, kk + n], [kk, kk + n])]
+        if abs(np.linalg.det(rc1) - (hb / 2) ** 2) > 1e-9 * (hb / 2) ** 2:
+            return None        # (r, phi) describe the mode completely only if its reduced state is pure
     REF_EXTRA_TOL.clear()
     want = ref_from_gauss(mu, cov, n, q, cutoff)
     tol = tol + REF_EXTRA_TOL.get(m, 0.0)
@@ -1030,6 +1124,9 @@ def eval_gauss_query(spec, rep, q, cutoff, cache=None):
             return None if abs(want - 1) < 1e-6 else ("gauss.is_pure:wrong", "is_pure is True but purity computed from cov is %.9g" % want)
         return None if _close(got, want, 1e-7) else ("bosonic.purity:wrong", "purity() = %s, from covariance %.9g" % (got, want))
     got_a = np.asarray(got)
+    if m == "poly_quad_expectation":
+        ln = min(len(got_a), len(want))
+        got_a, want = got_a[:ln], np.asarray(want)[:ln]
     if rep == "gaussian" and m in ("dm", "reduced_dm"):
         # the Gaussian class normalises the truncated state vector on its pure-state path and does not
         # normalise on the mixed path; both conventions are accepted (they differ by the truncated tail mass)
@@ -1084,6 +1181,13 @@ def _classify(rep, m, q, got, want, st, sg, mu, cov, n, cutoff):
             rc = cov[np.ix_(idx, idx)]
             if abs(np.linalg.det(rc) - (hb / 2) ** (2 * len(q["modes"]))) > 1e-6:
                 return "gauss.reduced_dm:global-pure-flag-on-mixed-reduction"
+        if rep == "gaussian" and m == "squeezing_truth":
+            # hypothesis: r and sin(phi) right, sign of cos(phi) lost (arcsin)
+            alt = np.array(got, dtype=float).copy()
+            tr = alt[0, 0] + alt[1, 1]
+            alt[0, 0], alt[1, 1] = alt[1, 1], alt[0, 0]
+            if _close(alt, want, 1e-8) and want[0, 0] > want[1, 1]:
+                return "gauss.squeezing:phi-quadrant-lost"
         if rep == "bosonic" and m == "displacement" and q["modes"] != sorted(q["modes"]):
             srt = sorted(q["modes"])
             if _close(got, (mu[srt] + 1j * mu[[x + n for x in srt]]) / np.sqrt(2 * hb), 1e-8):
@@ -1108,15 +1212,31 @@ def _classify(rep, m, q, got, want, st, sg, mu, cov, n, cutoff):
     return "%s.%s:mismatch%s" % (rep, m, kind)
 
 
-def _eval_backend_state(eng, st, rep, n, modes, mu, cov, cutoff):
+def _names_bad(sub, modes):
+    """mode_names / mode_indices / num_modes of a reduced state must describe the requested modes in order"""
+    want = {j: "q[%d]" % m for j, m in enumerate(modes)}
+    try:
+        if sub.num_modes != len(modes) or dict(sub.mode_names) != want or dict(sub.mode_indices) != {v: k for k, v in want.items()}:
+            return "num_modes=%s mode_names=%s, expected %s" % (sub.num_modes, dict(sub.mode_names), want)
+    except Exception as e:  # noqa: BLE001
+        return "mode_names raised %r" % e
+    return None
+
+
+def _eval_backend_state(eng, st, rep, n, modes, mu, cov, cutoff, as_int=False):
     """backend.state(modes=ms) must describe exactly those modes in that order"""
     idx = list(modes) + [x + n for x in modes]
     want_mu, want_cov = mu[idx], cov[np.ix_(idx, idx)]
     pre = {"gaussian": "gaussianbackend", "bosonic": "bosonicbackend", "fock": "fockbackend"}[rep]
     try:
-        sub = eng.backend.state(modes=list(modes))
+        sub = eng.backend.state(modes=int(modes[0]) if as_int else list(modes))
     except Exception as e:  # noqa: BLE001
+        if as_int:
+            return ("%s.state:int-modes-raises" % pre, "%s backend.state(modes=%d) (an int, as documented in BaseBackend.state) raised %r" % (rep, modes[0], e))
         return ("%s.state:raises:%s" % (pre, type(e).__name__), "%s backend.state(modes=%s) raised %r" % (rep, modes, e))
+    nb = _names_bad(sub, modes)
+    if nb:
+        return ("%s.state:mode-names" % pre, "%s backend.state(modes=%s): %s" % (rep, modes, nb))
     k = len(modes)
     if rep == "gaussian":
         if _close(sub.means(), want_mu) and _close(sub.cov(), want_cov):
@@ -1173,31 +1293,37 @@ def search_gauss_family(ctx):
             cutoff = 5
         qs = gen_queries(rng, n, cutoff, use_fock)
         cache = {}
+        hbar = 2.0 if ci % 3 == 0 else HBARS[1 + ci % (len(HBARS) - 1)]
         for rep in reps:
             for q in qs:
                 if q["m"] not in APPLIES[rep]:
                     continue
                 if n == 4 and q["m"] in ("dm", "all_fock_probs"):
                     continue
-                r = eval_gauss_query(spec, rep, q, cutoff, cache)
+                r = eval_gauss_query(spec, rep, q, cutoff, cache, hbar)
                 sg = cache["gaussian"][1]
                 ms = q.get("modes", [q["mode"]] if "mode" in q else None)
                 nontriv = ms is not None and n >= 2 and ms != list(range(len(ms))) and len(ms) < n + (ms != sorted(ms)) and _correlated(np.asarray(sg.cov()), n, ms)
-                ctx.case({"family": "gauss-circuit", "rep": rep, "n": n, "lossy": lossy, "q": {k: v for k, v in q.items() if k in ("m", "modes", "mode", "n")}},
+                ctx.case({"family": "gauss-circuit", "rep": rep, "n": n, "lossy": lossy, "hbar": hbar, "q": {k: v for k, v in q.items() if k in ("m", "modes", "mode", "n")}},
                          nontrivial=bool(nontriv), bucket="search:%s:%s" % (rep, q["m"]))
                 if r:
-                    ctx.counterexample(r[0], r[1], {"check": "gauss-query", "spec": spec, "rep": rep, "q": q, "cutoff": cutoff})
+                    ctx.counterexample(r[0], r[1], {"check": "gauss-query", "spec": spec, "rep": rep, "q": q, "cutoff": cutoff, "hbar": hbar})
         # family 3: simulator-level helpers with a modes argument
         for rep in ("gaussian", "bosonic"):
             eng = cache[rep][0]
             for ms in ([rng.randrange(n)], sorted(rng.sample(range(n), rng.randint(1, n)))):
-                r = eval_circuit_fidelity(spec, rep, ms, cache)
+                r = eval_circuit_fidelity(spec, rep, ms, cache, hbar)
                 ctx.case({"family": "circuit-helper", "rep": rep, "n": n, "modes": ms}, nontrivial=n >= 2 and len(ms) < n, bucket="search:%s:circuit.fidelity" % rep)
                 if r:
-                    ctx.counterexample(r[0], r[1], {"check": "circuit-fidelity", "spec": spec, "rep": rep, "modes": ms})
+                    ctx.counterexample(r[0], r[1], {"check": "circuit-fidelity", "spec": spec, "rep": rep, "modes": ms, "hbar": hbar})
 
 
-def eval_circuit_fidelity(spec, rep, ms, cache=None):
+def eval_circuit_fidelity(spec, rep, ms, cache=None, hbar=2.0):
+    with _Hbar(hbar):
+        return _eval_circuit_fidelity(spec, rep, ms, cache)
+
+
+def _eval_circuit_fidelity(spec, rep, ms, cache=None):
     cache = cache if cache is not None else {}
     if rep not in cache:
         cache[rep] = run_spec(spec, rep)
@@ -1466,6 +1592,9 @@ def _eval_fock_backend_state(eng, rho, N, modes, D):
         sub = eng.backend.state(modes=list(modes))
     except Exception as e:  # noqa: BLE001
         return ("fockbackend.state:raises:" + type(e).__name__, "fock backend.state(modes=%s) raised %r" % (modes, e))
+    nb = _names_bad(sub, modes)
+    if nb:
+        return ("fockbackend.state:mode-names", "fock backend.state(modes=%s): %s" % (modes, nb))
     try:
         got = sub.dm()
         mp = [sub.mean_photon(j)[0] for j in range(k)]
@@ -1620,10 +1749,16 @@ def gen_bosonic_queries(rng, n):
     for _ in range(3):
         qs.append({"m": "fock_prob", "n": [rng.choice([0, 1, 2, 3, 4]) for _ in range(n)]})
     qs.append({"m": "purity"})
+    qs.append({"m": "state_eq", "variant": rng.choice(["same", "parity", "gate"])})
     return qs
 
 
-def eval_bosonic_query(spec, q, lossy, cache=None):
+def eval_bosonic_query(spec, q, lossy, cache=None, hbar=2.0):
+    with _Hbar(hbar):
+        return _eval_bosonic_query(spec, q, lossy, cache)
+
+
+def _eval_bosonic_query(spec, q, lossy, cache=None):
     """(signature, text) if the property's predicate fails for query q on the bosonic state of spec"""
     cache = cache if cache is not None else {}
     n = spec["n"]
@@ -1655,6 +1790,22 @@ def eval_bosonic_query(spec, q, lossy, cache=None):
     def bad(sig, txt):
         return ("bosonic.%s:%s" % (m, sig), "bosonic state of %s: %s" % (spec["kind"], txt))
     try:
+        if m == "state_eq":
+            import copy
+            spec2 = {"n": n, "cmds": [list(cm) for cm in spec["cmds"]], "kind": spec["kind"]}
+            differ = q["variant"] != "same"
+            if q["variant"] == "parity" and spec2["cmds"][0][0] == "Catstate":
+                ps = list(spec2["cmds"][0][1])
+                ps[2] = ps[2] + 1          # other parity: same means and covariances, different weights
+                spec2["cmds"][0][1] = ps
+            elif differ:
+                spec2["cmds"].append(["Rgate", [0.3], [0], False])
+            other = run_spec(spec2, "bosonic")[1]
+            got = bool(sb == other), bool(other == sb), bool(sb == copy.deepcopy(sb))
+            if not got[2] or got[0] != got[1] or got[0] == differ:
+                return bad("wrong", "== with the state of %s program gives %s / %s, with a copy of itself %s" % (
+                    "the same" if not differ else "a different (%s)" % q["variant"], got[0], got[1], got[2]))
+            return None
         if m == "quad_expectation":
             got = [complex(x) for x in sb.quad_expectation(q["mode"], q["phi"])]
             want = sk.quad_expectation(q["mode"], q["phi"])
@@ -1780,14 +1931,248 @@ def search_bosonic_family(ctx):
                 spec = gen_bosonic_spec(rng, n, lossy)
         qs = gen_bosonic_queries(rng, n)
         cache = {}
+        hbar = 2.0 if ci % 2 == 0 else HBARS[1 + ci % (len(HBARS) - 1)]
         for q in qs:
-            r = eval_bosonic_query(spec, q, lossy, cache)
-            ctx.case({"family": "bosonic-multicomponent", "kind": spec["kind"], "n": n, "lossy": lossy, "weights": int(cache["bosonic"][1].num_weights),
+            r = eval_bosonic_query(spec, q, lossy, cache, hbar)
+            ctx.case({"family": "bosonic-multicomponent", "kind": spec["kind"], "n": n, "lossy": lossy, "hbar": hbar, "weights": int(cache["bosonic"][1].num_weights),
                       "cutoff": cache.get("cutoff"), "q": {k: v for k, v in q.items() if k in ("m", "modes", "mode", "phi", "n")}},
                      nontrivial=int(cache["bosonic"][1].num_weights) > 1 and (n == 2 or q["m"] in ("quad_expectation", "marginal_moments", "wigner_moments", "mean_photon")),
                      bucket="search:bosonic-%s:%s" % (spec["kind"], q["m"]))
             if r:
-                ctx.counterexample(r[0], r[1], {"check": "bosonic-query", "spec": spec, "q": q, "lossy": lossy})
+                ctx.counterexample(r[0], r[1], {"check": "bosonic-query", "spec": spec, "q": q, "lossy": lossy, "hbar": hbar})
+
+
+# ---------------- family 5: observables are pure functions of the state --------------------------
+# One state object receives a random history of calls of every method of the state API (repeated,
+# in random order); every answer is compared with the answer of a fresh copy of the pristine state
+# and with the first answer to the same question, and the state's stored arrays are fingerprinted
+# before / after every call.  States: 1-mode and multi-mode objects and backend.state(modes=[k])
+# reductions, on all three backends, at several values of hbar.
+
+_STORED = ["_data", "_mu", "_cov", "_alpha", "_mus", "_covs", "_weights"]
+
+
+def _fingerprint(st):
+    out = {}
+    for name in _STORED:
+        v = getattr(st, name, None)
+        if v is None:
+            continue
+        if isinstance(v, (tuple, list)):
+            out[name] = [np.array(x, dtype=complex, copy=True) for x in v]
+        else:
+            out[name] = [np.array(v, dtype=complex, copy=True)]
+    return out
+
+
+def _fp_diff(a, b):
+    for name in a:
+        for x, y in zip(a[name], b[name]):
+            if x.shape != y.shape or (x.size and np.max(np.abs(x - y)) > 0):
+                return name
+    return None
+
+
+def _canon_result(v):
+    """turn any API answer into something comparable"""
+    if v is None or isinstance(v, (bool, np.bool_, str, int)):
+        return ("atom", v if not isinstance(v, np.bool_) else bool(v))
+    if isinstance(v, (tuple, list)) and v and isinstance(v[0], (tuple, list, np.ndarray)):
+        return ("seq", [_canon_result(x) for x in v])
+    try:
+        return ("num", np.array(v, dtype=complex))
+    except Exception:  # noqa: BLE001
+        return ("seq", [_canon_result(x) for x in v])
+
+
+def _same(a, b, tol=1e-10):
+    if a[0] != b[0]:
+        return False
+    if a[0] == "atom":
+        return a[1] == b[1]
+    if a[0] == "seq":
+        return len(a[1]) == len(b[1]) and all(_same(x, y, tol) for x, y in zip(a[1], b[1]))
+    return _close(a[1], b[1], tol)
+
+
+def gen_history(rng, rep, n, pure, length):
+    """random call history for an n-mode state object of representation rep"""
+    XS, PS = [-1.5, -0.5, 0.5, 1.5], [-1.0, 0.0, 1.0]
+    GRID = [round(-4 + 0.8 * i, 2) for i in range(11)]
+
+    def sub(any_order=False, maxlen=None):
+        k = rng.randint(1, min(n, maxlen or n))
+        m = rng.sample(range(n), k)
+        return m if any_order else sorted(m)
+
+    def mk():
+        k = rng.randrange(n)
+        common = [
+            {"m": "mean_photon", "mode": k}, {"m": "quad_expectation", "mode": k, "phi": rng.choice([0.0, 1.1, -0.6, math.pi / 2])},
+            {"m": "parity_expectation", "modes": sub(True)}, {"m": "fidelity_vacuum"},
+            {"m": "fidelity_coherent", "alpha": [[round(rng.uniform(-0.4, 0.4), 2), round(rng.uniform(-0.4, 0.4), 2)] for _ in range(n)]},
+            {"m": "fock_prob", "n": [rng.choice([0, 0, 1, 2]) for _ in range(n)]},
+            {"m": "reduced_dm", "modes": [k]}, {"m": "wigner", "mode": k, "x": XS, "p": PS},
+            {"m": "x_quad_values", "mode": k, "grid": GRID}, {"m": "p_quad_values", "mode": k, "grid": GRID},
+            {"m": "eq"}, {"m": "is_pure"}, {"m": "dm"},
+        ]
+        if rep == "gaussian":
+            A = np.zeros((2 * n, 2 * n))
+            a, b = rng.randrange(2 * n), rng.randrange(2 * n)
+            A[a, b] += 0.5
+            A[b, a] += 0.5
+            d = np.zeros(2 * n)
+            d[rng.randrange(2 * n)] = 0.7
+            extra = [
+                {"m": "is_coherent", "mode": k}, {"m": "is_squeezed", "mode": k}, {"m": "squeezing", "modes": rng.choice([None, sub(True)])},
+                {"m": "is_coherent", "mode": k}, {"m": "is_squeezed", "mode": k}, {"m": "squeezing", "modes": None},
+                {"m": "displacement", "modes": rng.choice([None, sub(True)])}, {"m": "means"}, {"m": "cov"},
+                {"m": "reduced_gaussian", "modes": sub()}, {"m": "reduced_gaussian", "modes": list(range(n))},
+                {"m": "number_expectation", "modes": sub(True, 2)}, {"m": "all_fock_probs"},
+                {"m": "poly_quad_expectation", "A": A.tolist(), "d": d.tolist(), "k": 0.3, "phi": rng.choice([0.0, 0.5])},
+                {"m": "fidelity", "mode": k, "alpha": [0.2, -0.1]}, {"m": "ket"},
+            ]
+        elif rep == "bosonic":
+            extra = [
+                {"m": "displacement", "modes": rng.choice([None, sub(True)])}, {"m": "means"}, {"m": "covs"}, {"m": "weights"}, {"m": "purity"},
+                {"m": "reduced_bosonic", "modes": sub()}, {"m": "reduced_bosonic", "modes": list(range(n))},
+                {"m": "marginal", "mode": k, "grid": GRID, "phi": rng.choice([0.0, 0.8])},
+            ]
+        else:
+            A = np.zeros((2 * n, 2 * n))
+            a = rng.randrange(2 * n)
+            A[a, a] = 1.0
+            d = np.zeros(2 * n)
+            d[rng.randrange(2 * n)] = 0.7
+            extra = [
+                {"m": "trace"}, {"m": "all_fock_probs"}, {"m": "ket"}, {"m": "reduced_dm", "modes": sub()},
+                {"m": "number_expectation", "modes": sub(True)}, {"m": "fidelity", "mode": k, "alpha": [0.2, -0.1]},
+                {"m": "poly_quad_expectation", "A": A.tolist(), "d": d.tolist(), "k": 0.3, "phi": rng.choice([0.0, 0.5])},
+            ]
+        return rng.choice(common + extra + extra)
+    hist = [mk() for _ in range(length)]
+    # every question is asked at least twice, the second time after other calls
+    return hist + [dict(q) for q in rng.sample(hist, min(len(hist), length // 2))]
+
+
+def _hist_call(st, rep, q, cutoff, pristine):
+    m = q["m"]
+    if m in ("x_quad_values", "p_quad_values"):
+        g = np.array(q["grid"])
+        return getattr(st, m)(q["mode"], g, g)
+    if m == "marginal":
+        return st.marginal(q["mode"], np.array(q["grid"]), q["phi"])
+    if m == "eq":
+        return bool(st == pristine)
+    if m == "is_pure":
+        return bool(st.is_pure)
+    if m in ("means", "cov", "covs", "weights", "trace"):
+        return getattr(st, m)()
+    if m in ("is_coherent", "is_squeezed"):
+        return bool(getattr(st, m)(q["mode"]))
+    if m == "squeezing":
+        return [list(x) for x in (st.squeezing() if q["modes"] is None else st.squeezing(list(q["modes"])))]
+    if m == "displacement" and q["modes"] is None:
+        return st.displacement()
+    if m == "reduced_gaussian":
+        return [np.array(x) for x in st.reduced_gaussian(list(q["modes"]))]
+    if m == "reduced_bosonic":
+        return [np.array(x) for x in st.reduced_bosonic(list(q["modes"]))]
+    if m == "ket":
+        kw = {} if rep == "fock" else {"cutoff": cutoff}
+        v = st.ket(**kw)
+        return None if v is None else np.array(v)
+    if m == "purity":
+        return st.purity()
+    if m == "number_expectation":
+        return [float(x) for x in st.number_expectation(list(q["modes"]))]
+    if m == "poly_quad_expectation":
+        return [float(x) for x in st.poly_quad_expectation(np.array(q["A"]), np.array(q["d"]), q["k"], q["phi"])]
+    if m == "mean_photon":
+        kw = {} if rep == "fock" else {"cutoff": cutoff}
+        return [complex(x) for x in st.mean_photon(q["mode"], **kw)]
+    if m == "quad_expectation":
+        return [complex(x) for x in st.quad_expectation(q["mode"], q["phi"])]
+    return call_query(st, rep, q, cutoff)
+
+
+def build_history_state(spec, rep, hbar, reduce_to, cutoff):
+    eng, st = run_spec(spec, rep, cutoff)
+    if reduce_to is not None:
+        st = eng.backend.state(modes=list(reduce_to))
+    return st
+
+
+def eval_history(spec, rep, hbar, reduce_to, cutoff, history):
+    """(signature, text) for the first call whose answer depends on the calls made before it, or that
+    changes the state's stored arrays; None if the state object behaves as a pure function."""
+    import copy
+    pre = {"gaussian": "gauss", "bosonic": "bosonic", "fock": "fock"}[rep]
+    with _Hbar(hbar):
+        st = build_history_state(spec, rep, hbar, reduce_to, cutoff)
+        pristine = copy.deepcopy(st)
+        first = {}
+        done = []
+        for q in history:
+            key = json.dumps(q, sort_keys=True)
+            fresh = copy.deepcopy(pristine)
+            try:
+                want = ("ok", _canon_result(_hist_call(fresh, rep, q, cutoff, pristine)))
+            except NotImplementedError:
+                continue
+            except Exception as e:  # noqa: BLE001
+                want = ("raise", type(e).__name__)
+            before = _fingerprint(st)
+            try:
+                got = ("ok", _canon_result(_hist_call(st, rep, q, cutoff, pristine)))
+            except Exception as e:  # noqa: BLE001
+                got = ("raise", type(e).__name__)
+            changed = _fp_diff(before, _fingerprint(st))
+            desc = "%s state (%d mode%s%s, hbar=%s)" % (rep, st.num_modes, "s" if st.num_modes > 1 else "", "" if reduce_to is None else ", backend.state(modes=%s)" % reduce_to, hbar)
+            if changed:
+                return ("%s.%s:mutates-state" % (pre, q["m"]), "%s: calling %s(%s) changed the state's stored array %s" % (desc, q["m"], _qargs(q), changed))
+            same = got[0] == want[0] and (got[1] == want[1] if got[0] == "raise" else _same(got[1], want[1]))
+            if not same:
+                return ("%s.%s:depends-on-call-history" % (pre, q["m"]), "%s: %s(%s) after the calls [%s] differs from the answer of a fresh copy of the same state" % (
+                    desc, q["m"], _qargs(q), ", ".join(x["m"] for x in done[-8:])))
+            if key in first:
+                f = first[key]
+                if not (f[0] == got[0] and (f[1] == got[1] if got[0] == "raise" else _same(f[1], got[1]))):
+                    return ("%s.%s:not-repeatable" % (pre, q["m"]), "%s: %s(%s) answered differently the second time" % (desc, q["m"], _qargs(q)))
+            else:
+                first[key] = got
+            done.append(q)
+        if _fp_diff(_fingerprint(pristine), _fingerprint(st)):
+            return ("%s.history:state-changed" % pre, "stored arrays differ from the pristine copy after the history")
+    return None
+
+
+def search_history_family(ctx):
+    rng = ctx.rng
+    nh = ctx.budget(14, 90)
+    for ci in range(nh):
+        rep = ["gaussian", "gaussian", "bosonic", "fock"][ci % 4]
+        hbar = HBARS[ci % len(HBARS)] if ci >= 2 else [1.0, 0.5][ci]
+        shape = [("one", 1, None), ("multi", rng.choice([2, 3]), None), ("reduced", rng.choice([2, 3]), "single"), ("one", 1, None), ("reduced", 3, "pair")][ci % 5]
+        n = shape[1] if rep != "fock" else min(shape[1], 2)
+        lossy = rng.random() < 0.4
+        spec = gen_gauss_spec(rng, n, lossy)
+        reduce_to = None
+        if shape[2] == "single":
+            reduce_to = [rng.randrange(n)]
+        elif shape[2] == "pair" and n >= 2:
+            reduce_to = rng.sample(range(n), 2)
+            if rep == "bosonic":
+                reduce_to = sorted(reduce_to)
+        neff = n if reduce_to is None else len(reduce_to)
+        cutoff = {1: 8, 2: 6, 3: 5}[n] if rep == "fock" else 5
+        history = gen_history(rng, rep, neff, not lossy, ctx.budget(16, 22))
+        r = eval_history(spec, rep, hbar, reduce_to, cutoff, history)
+        ctx.case({"family": "call-history", "rep": rep, "n": n, "hbar": hbar, "reduce_to": reduce_to, "calls": [q["m"] for q in history][:12]},
+                 nontrivial=hbar != 2.0 or neff == 1, bucket="search:history:%s:%s:hbar=%s" % (rep, shape[0], hbar))
+        ctx.evaluations += len(history) - 1
+        if r:
+            ctx.counterexample(r[0], r[1], {"check": "history", "spec": spec, "rep": rep, "hbar": hbar, "reduce_to": reduce_to, "cutoff": cutoff, "history": history})
 
 
 def replay_corpus(ctx):
@@ -1806,16 +2191,18 @@ def replay_corpus(ctx):
 def _eval_replay(d):
     chk = d.get("check")
     if chk == "gauss-query":
-        return eval_gauss_query(d["spec"], d["rep"], d["q"], d["cutoff"])
+        return eval_gauss_query(d["spec"], d["rep"], d["q"], d["cutoff"], None, d.get("hbar", 2.0))
     if chk == "circuit-fidelity":
-        return eval_circuit_fidelity(d["spec"], d["rep"], d["modes"])
+        return eval_circuit_fidelity(d["spec"], d["rep"], d["modes"], None, d.get("hbar", 2.0))
     if chk == "fock-query":
         return eval_fock_query(d["spec"], d["D"], d["variant"], d["q"])
+    if chk == "history":
+        return eval_history(d["spec"], d["rep"], d["hbar"], d["reduce_to"], d["cutoff"], d["history"])
     if chk == "bosonic-mixture":
         bad = _bosonic_mixture_predicate(d["case"])
         return ("bosonic.quad_expectation:mixture", "BaseBosonicState." + bad) if bad else None
     if chk == "bosonic-query":
-        return eval_bosonic_query(d["spec"], d["q"], d["lossy"])
+        return eval_bosonic_query(d["spec"], d["q"], d["lossy"], None, d.get("hbar", 2.0))
     if chk == "gauss-call":
         bad = _gauss_predicate(d["case"])
         return ("gauss.%s:%s" % (d["case"]["method"], d["case"]["kind"]), bad) if bad else None
@@ -1921,6 +2308,7 @@ def search(ctx):
     search_gauss_family(ctx)
     search_fock_family(ctx)
     search_bosonic_family(ctx)
+    search_history_family(ctx)
 
 
 def replay(ctx, data):
